@@ -37,9 +37,26 @@ C08Verdict(rec) ==
     ELSE IF rec.ret = "none" THEN Fail(sel, "select.not-decoded")
     ELSE Ok          \* raised: content trouble of the selected definition is C01's business
 
+\* ---- C02 ----------------------------------------------------------------
+\* rec: [id (definition the decoder named), p (decoded payload), ret ("enc"|"err"), e (re-encoded payload)]
+FieldKept(f, p, e) ==
+  LET a == Slice(p, f.off, f.len)
+      b == Slice(e, f.off, f.len)
+  IN IF f.len <= 48 \/ f.kind \notin {"num", "time", "date"} THEN a = b
+     ELSE a = b \/ (Sentinel(f, a) = Sentinel(f, b) /\ ~Sentinel(f, a) /\ SMNear(Ticks(f, b), Ticks(f, a), 48))
+
+C02Verdict(rec) ==
+  LET d == DefById(rec.id) IN
+    IF rec.ret = "err" THEN Fail(0, "reencode.refused")
+    ELSE IF d.len > 0 /\ Len(rec.e) # d.len THEN Fail(0, "reencode.length")
+    ELSE LET idx == SelectSeq([k \in 1..Len(d.fields) |-> k],
+                              LAMBDA k : Positioned(d.fields[k]) /\ ~FieldKept(d.fields[k], rec.p, rec.e))
+         IN [j \in 1..Len(idx) |-> [f |-> idx[j], c |-> "reencode.bits"]]
+
 Verdict(rec) ==
   CASE IOEnv.MODE = "C01" -> C01Verdict(rec)
     [] IOEnv.MODE = "C08" -> C08Verdict(rec)
+    [] IOEnv.MODE = "C02" -> C02Verdict(rec)
 
 Verdicts ==
   LET idx == SelectSeq([k \in 1..Len(Recs) |-> k], LAMBDA k : Verdict(Recs[k]) # Ok)
